@@ -20,6 +20,13 @@ class CleanerH(Harness):
     QUICK = ["Cleaner@3x5x2", "Cleaner@4x4x2", "Cleaner@3x3x1"]
     THOROUGH = ["Cleaner@5x6x3", "Cleaner@5x3x2", "Cleaner@2x6x2"]
     INVALID = "terminate"
+    REF_REWARD_VARIANTS = True
+    # constructor scalars: the documented default 0.5, a falsy value (`x or default` idioms) and another non-default one.  The oracle
+    # takes the constant from the OVERRIDE it passed, never from the attribute the constructor under test assigned.
+    REWARD_VARIANTS = [{}, {"penalty_per_timestep": 0.0}, {"penalty_per_timestep": 0.25}]
+
+    def pen(self):
+        return np.float32(self.over.get("penalty_per_timestep", 0.5))
     TIME_LIMIT = True
 
     def dims(self):
@@ -98,7 +105,7 @@ class CleanerH(Harness):
     def reward_law(self, st, act, ns, ts, legal):
         g0, g1 = vs(st.grid), vs(ns.grid)
         cleaned = count([(a == DIRTY) & (b == CLEAN) for a, b in zip(g0.reshape(-1), g1.reshape(-1))])
-        pen = np.float32(self.env.penalty_per_timestep)
+        pen = self.pen()
         return [("reward == tiles cleaned this step - penalty_per_timestep (= Phi(S') - Phi(S), Phi = clean tiles - penalty*steps)",
                  vs(ts.reward) == cleaned.astype(np.float32) - pen)]
 
@@ -121,7 +128,7 @@ class CleanerH(Harness):
         sc = vs(st.step_count) + 1
         last = (~all_(legal)) | (~any_([x == DIRTY for x in ng.reshape(-1)])) | (sc >= self.T)
         return {"grid": ng, "agents_locations": nl, "step_count": sc,
-                "reward": cleaned.astype(np.float32) - np.float32(self.env.penalty_per_timestep), "last": last}
+                "reward": cleaned.astype(np.float32) - self.pen(), "last": last}
 
     def other_done(self, st, act, ns, ts):
         legal = self.action_legal(st, act)
